@@ -3453,6 +3453,37 @@ def c17_astdiff_tie(ctx, jobs, untouched=None):
                         else f"comment associations of the new snapshot differ at value {snap[1:]}")
                 ctx.broken("correspondence", f"astdiff step {sa[1]}: {what}; patches {patches!r}; file {src[:400]!r}")
     ctx.extra["astdiff_disagreements"] = bad
+    # the changelog of every step: regions reported (plus), recorded as unchanged by the replacer (minus), what
+    # ChangedIntervals returned (out) - against the set semantics of the model, with the untouched extents of the engine model
+    lines = []
+    for l in open(os.path.join(d, "changelog.cases")).read().splitlines():
+        cid0 = parse_sx(l)[1].rsplit(".", 1)[0]
+        unt = "".join(f" ({a} {b_})" for a, b_ in (untouched or {}).get(cid0, []))
+        lines.append(l[:-1] + f" (untouched{unt}))")
+    if lines:
+        m2 = subprocess.run([ctx.driver], input="\n".join(lines) + "\n", stdout=subprocess.PIPE, stderr=subprocess.PIPE, text=True, timeout=1800)
+        outl = m2.stdout.splitlines()
+        if len(outl) != len(lines):
+            ctx.broken("driver", f"changelog stream: cases {len(lines)} model {len(outl)} {m2.stderr[-300:]}")
+            return
+        cbad = 0
+        for cl_, ml in zip(lines, outl):
+            ctx.evaluations += 1
+            sc_, sm = parse_sx(cl_), parse_sx(ml)
+            out = sx_field(sc_[3:], "out") or []
+            mod = sx_field(sm[2:], "model") or []
+            snd = (sx_field(sm[2:], "sound") or ["?"])[0]
+            ctx.count("changelog_steps")
+            ctx.count("changelog_strongclear:" + (sx_field(sm[2:], "strongclear") or ["?"])[0])
+            if (sx_field(sm[2:], "respects") or ["1"])[0] != "1":
+                ctx.count("changelog_respects_fails")     # reported in full by the interval tie above
+            if out != mod or snd != "1":
+                cbad += 1
+                if cbad <= 3:
+                    patches, src = byid.get(sc_[1].rsplit(".", 1)[0], ([""], ""))
+                    ctx.broken("correspondence", f"changelog of step {sc_[1]}: ChangedIntervals returned {out}, the set 'changed minus unchanged' is {mod} "
+                                                 f"(sound={snd}); plus {sx_field(sc_[3:], 'plus')}, minus {sx_field(sc_[3:], 'minus')}; patches {patches!r}")
+        ctx.extra["changelog_disagreements"] = cbad
 
 def c17_intervals_tie(ctx, jobs, touched):
     """Lean filterComments on the changed intervals of the real engine vs the comments of the real output; and the
